@@ -7,9 +7,13 @@ Every fragment of the decomposition bookkeeping in ``pde/grids/_mesh.py`` and
 R1 chunk-partition  -- ``_subdivide``: one integer partition ``diff(linspace(0, num,
                        chunks+1).astype(int))`` guarded by ``chunks > num``: sizes sum to
                        ``num`` and are >= 1.
-R2 bounds-chain     -- ``_subdivide_along_axis``: cursor recurrence ``start -> start+size``
-                       from 0; bounds are ``lattice[start], lattice[start+size]`` on the
-                       parent's cell-boundary lattice; only entry ``axis`` is replaced.
+R2 bounds-chain     -- ``_subdivide_along_axis`` interpreted (fx) on symbolic grids with 1-3
+                       axes, each split axis, 1-3 chunks: the captured ``from_bounds``
+                       calls tile the parent (shared faces, first/last at the parent's
+                       bounds), every sub-grid has the parent's cell size, other axes and
+                       flags are the parent's, the split axis is not periodic.
+R2b index-pair      -- ``_idx2id`` of a generic index equals the row-major polynomial whose
+                       digits ``_id2idx`` (``np.unravel_index``) returns, for 1-3 axes.
 R3 data-slices      -- ``_get_data_indices_1d``: ``slice(last, last+n+i_add)``,
                        ``last -> last+n`` from 0, ``i_add = 2 iff ghost cells``; consumers
                        index ``[axis][node index]`` and pass the ghost flag through.
@@ -163,143 +167,107 @@ def rule_chunk_partition(rep: Report, ix: Index) -> None:
 
 
 # ============================================================================= R2
-def check_replace_in_axis(rep: Report, f: FuncInfo, node: ast.FunctionDef, axis) -> None:
-    """the local helper must replace exactly entry `axis`"""
-    names = [a.arg for a in node.args.args]
-    if len(names) != 2:
-        raise AnalysisError(f"{f.ref}.{node.name}: expected (arr, value)")
-    arr, value = sp.Symbol(names[0]), sp.Symbol(names[1])
-    ev = SymEval(f"{f.ref}.{node.name}")
-    paths = ev.run(strip_doc(node.body), Path({names[0]: arr, names[1]: value, str(axis): axis}))
-    probs = []
-    n_ret = 0
-    for p in paths:
-        if not p.outcome or p.outcome[0] != "return":
-            continue
-        n_ret += 1
-        v = p.outcome[1]
-        if isinstance(v, tuple):
-            want_lo = F("getslice")(arr, F("slice")(NONE, axis, NONE))
-            want_hi = F("getslice")(arr, F("slice")(axis + 1, NONE, NONE))
-            ok = (
-                len(v) == 3
-                and isinstance(v[0], StarV)
-                and isinstance(v[2], StarV)
-                and v[0].value == want_lo
-                and head_name(v[2].value) == "getslice"
-                and v[2].value.args[0] == arr
-                and same(v[2].value.args[1].args[0], axis + 1)
-                and v[2].value.args[1].args[1] == NONE
-                and v[1] == value
-            )
-            if not ok:
-                probs.append(f"tuple branch returns `{_as_term(v)}`, not `(*arr[:axis], value, *arr[axis+1:])`")
-        else:
-            sets = [e for e in p.events if e[0] == "setitem"]
-            ok = len(sets) == 1 and sets[0][1] == v and same(sets[0][2], axis) and sets[0][3] == value and head_name(v) == "call_copy" and v.args[0] == arr
-            if not ok:
-                probs.append(f"list branch does not return a copy of `arr` with entry `axis` set to `value` (returns `{v}`)")
-    if n_ret < 1:
-        raise AnalysisError(f"{f.ref}.{node.name}: no returning path")
-    rep.oblige("subdivide:replace_in_axis-touches-only-axis", not probs, probs)
-    for m in probs:
-        rep.violation("C17.bounds-chain", f"{f.ref}.{node.name}::replace", m, line=node.lineno)
-
-
 def rule_bounds_chain(rep: Report, ix: Index) -> None:
+    """``_subdivide_along_axis`` is interpreted (fx) for 1-3 axes, every split axis and
+    2-3 chunks on a symbolic grid (bounds a_k..b_k, N_k cells, flags p_k); the partition
+    ``_subdivide`` returns symbolic sizes s_j (R1 proves sum = N).  The captured
+    ``from_bounds`` calls must tile the parent exactly: chunk j spans
+    ``a + (b-a)/N * (s_0+..+s_{j-1})`` to ``a + (b-a)/N * (s_0+..+s_j)`` on the split axis
+    (hence the same cell size as the parent and shared faces), all other entries are
+    the parent's, the split axis is not periodic, and the returned list is in this order."""
+    from .. import fx
+
     f = ix.func(MESH, "_subdivide_along_axis")
     rep.saw("functions", f.ref)
-    gname, aname, cname = func_params(f)[:3]
-    grid, axis, chunks = sp.Symbol(gname), sp.Symbol(aname), sp.Symbol(cname)
-    ev, paths = run(f)
-    loops = [L for L in ev.loops if head_name(_as_term(L.iter_value)) == "call__subdivide"]
-    if len(loops) != 1:
-        raise AnalysisError(f"{f.ref}: expected one loop over `_subdivide(...)`, found {len(loops)}")
-    L = loops[0]
-    it = _as_term(L.iter_value)
-    N = elem(attr("shape", grid), axis)
-    probs: list[tuple[str, str]] = []
-    if not (len(it.args) == 2 and same(it.args[0], N) and it.args[1] == chunks):
-        probs.append(("partition-args", f"chunk sizes come from `{it}`, not from `_subdivide({gname}.shape[{aname}], {cname})`"))
-    size = L.target
-    live = [p for p in L.paths if p.outcome is None]
-    if len(live) != 1:
-        raise AnalysisError(f"{f.ref}: loop body has {len(live)} completing paths; expected straight-line code")
-    p = live[0]
-    calls = [e[1] for e in p.events if e[0] == "call" and head_name(e[1]) == "call_from_bounds"]
-    if len(calls) != 1:
-        raise AnalysisError(f"{f.ref}: expected one `from_bounds` call per chunk, found {len(calls)}")
-    fb = calls[0]
-    recv, *args = positional_args(fb)
-    if recv not in (attr("__class__", grid), F("call_type")(grid)):
-        probs.append(("class", f"sub-grids are built by `{recv}.from_bounds`, not by the class of the parent grid"))
-    if len(args) != 3 or any(head_name(x).startswith("kw_") for x in fb.args):
-        raise AnalysisError(f"{f.ref}: from_bounds is not called as (bounds, shape, periodic): {fb}")
-    B, Sh, Per = args
-    helper = next(iter(ev.local_defs), None)
-    if helper is None:
-        raise AnalysisError(f"{f.ref}: local replace helper vanished")
-    H = sp.Symbol(helper)
+    probs: dict[str, str] = {}
+    n_cases = 0
+    samples = {}
+    for nax in (1, 2, 3):
+        for axis in range(nax):
+            for chunks in (1, 2, 3):
+                N = [sp.Symbol(f"N{k}", integer=True, positive=True) for k in range(nax)]
+                lo = [sp.Symbol(f"a{k}", real=True) for k in range(nax)]
+                hi = [sp.Symbol(f"b{k}", real=True) for k in range(nax)]
+                per = [sp.Symbol(f"p{k}") for k in range(nax)]
+                sizes = [sp.Symbol(f"s{j}", integer=True, positive=True) for j in range(chunks)]
+                calls: list[tuple] = []
 
-    def replaced(term, what):
-        """term == helper(<grid.what>, value) -> value"""
-        if head_name(term) == "call" and len(term.args) == 3 and term.args[0] == H and term.args[1] == attr(what, grid):
-            return term.args[2]
-        return None
+                def from_bounds(bounds=None, shape=None, periodic=False, _calls=calls, **kw):
+                    if kw:
+                        raise AnalysisError(f"{f.ref}: from_bounds called with unknown keywords {sorted(kw)}")
+                    _calls.append((bounds, shape, periodic))
+                    return fx.Opaque(f"subgrid{len(_calls) - 1}")
 
-    # cursor
-    cursors = [n for n in L.carried if not isinstance(L.pre_env.get(n), PyList)]
-    lists = [n for n in L.carried if isinstance(L.pre_env.get(n), PyList)]
-    bv = replaced(B, "axes_bounds")
-    if bv is None or head_name(bv) != "tuple" or len(bv.args) != 2:
-        probs.append(("bounds", f"bounds `{B}` are not the parent's `axes_bounds` with entry `{aname}` replaced by a (low, high) pair"))
-    else:
-        lo, hi = bv.args
-        if not (head_name(lo) == "elem" and head_name(hi) == "elem" and lo.args[0] == hi.args[0]):
-            probs.append(("bounds", f"(low, high) = ({lo}, {hi}) are not two points of one lattice"))
-        else:
-            lattice = lo.args[0]
-            AB = elem(attr("axes_bounds", grid), axis)
-            want = F("call_linspace")(sp.Symbol("np"), F("star")(AB), N + 1)
-            lat_ok = head_name(lattice) == "call_linspace" and len(lattice.args) == 3 and lattice.args[1] == F("star")(AB) and same(lattice.args[2], N + 1)
-            if not lat_ok:
-                probs.append(("lattice", f"cell-boundary lattice is `{lattice}`, not `{want}` (N+1 equidistant points between the parent's bounds on this axis)"))
-            cur = [n for n in cursors if same(lo.args[1], L.carried[n])]
-            if len(cur) != 1:
-                probs.append(("chain", f"lower bound index `{lo.args[1]}` is not the running cursor"))
-            else:
-                c = cur[0]
-                S = L.carried[c]
-                init = L.pre_env.get(c)
-                nxt = p.env[c]
-                if not (isinstance(init, sp.Basic) and init == 0):
-                    probs.append(("chain", f"cursor `{c}` starts at `{init}`, not 0: the first sub-grid does not start at the parent's lower bound"))
-                if not same(nxt, S + size):
-                    probs.append(("chain", f"cursor `{c}` advances to `{nxt}`, not to `{c} + size`: consecutive sub-grids do not share their boundary"))
-                if not same(hi.args[1], S + size):
-                    probs.append(("chain", f"upper bound index is `{hi.args[1]}`, not `{c} + size` (= the next sub-grid's lower bound)"))
-    sv = replaced(Sh, "shape")
-    if sv is None or not same(sv, size):
-        probs.append(("shape", f"shape `{Sh}` is not the parent's shape with entry `{aname}` replaced by the chunk size"))
-    pv = replaced(Per, "periodic")
-    if pv is None or pv != sp.false:
-        probs.append(("periodic", f"periodic `{Per}` is not the parent's flags with entry `{aname}` set to False"))
-    apps = [e for e in p.events if e[0] == "append" and e[1] in lists]
-    if not (len(apps) == 1 and apps[0][2] == fb):
-        probs.append(("order", "the sub-grid is not appended exactly once per chunk, in chunk order"))
-    else:
-        lname = apps[0][1]
-        pre = L.pre_env[lname]
-        if not (pre.items == [] and not pre.appended):
-            probs.append(("order", f"`{lname}` is not empty before the loop"))
-        rets = [q for q in paths if q.outcome and q.outcome[0] == "return" and isinstance(q.outcome[1], PyList) and q.outcome[1].base is not None]
-        if not any(q.env.get(lname) is q.outcome[1] or _as_term(q.outcome[1]) == _as_term(q.env.get(lname)) for q in rets):
-            probs.append(("order", f"the list `{lname}` of sub-grids is not what the function returns"))
-    # single chunk: the grid itself
-    one = [q for q in paths if q.outcome and q.outcome[0] == "return" and any(isinstance(g, sp.Equality) and pol and same(g.lhs - g.rhs, chunks - 1) for g, pol in q.guards)]
-    if not (len(one) == 1 and isinstance(one[0].outcome[1], PyList) and one[0].outcome[1].items == [grid]):
-        probs.append(("single", "a single chunk does not return `[grid]`"))
-    check_replace_in_axis(rep, f, ev.local_defs[helper], axis)
+                klass = fx.Model("grid-class", {"from_bounds": from_bounds})
+                grid = fx.Model("grid", {"shape": tuple(N), "axes_bounds": tuple((lo[k], hi[k]) for k in range(nax)), "periodic": list(per), "__class__": klass, "num_axes": nax})
+                part_args = []
+
+                def _subdivide(num, ch, _sizes=sizes, _pa=part_args):
+                    _pa.append((num, ch))
+                    return fx.Vec(list(_sizes))
+
+                it = fx.Interp(ix, overrides={"_subdivide": _subdivide, "type": lambda o, _k=klass, _g=grid: _k if o is _g else fx.Opaque("type()")})
+                try:
+                    res = it.call(it.make_closure(f, it.module_env(f.module)), (grid, axis, chunks), {})
+                except fx.Unsupported as e:
+                    raise AnalysisError(f"{f.ref}: cannot be interpreted for axes={nax}, axis={axis}, chunks={chunks}: {e}") from None
+                n_cases += 1
+                tag = f"axes={nax},axis={axis},chunks={chunks}"
+                res = list(res) if isinstance(res, (list, tuple, fx.Vec)) else None
+                if res is None:
+                    raise AnalysisError(f"{f.ref}: does not return a list of sub-grids ({tag})")
+                if chunks == 1:
+                    if not (len(res) == 1 and res[0] is grid and not calls):
+                        probs.setdefault("single", f"a single chunk does not return `[grid]` ({tag})")
+                    continue
+                if part_args != [(N[axis], chunks)]:
+                    probs.setdefault("partition-args", f"chunk sizes do not come from one call `_subdivide(grid.shape[axis], chunks)` but from {part_args} ({tag})")
+                names = [getattr(r, "name", None) for r in res]
+                if sorted(n for n in names if n) != [f"subgrid{j}" for j in range(chunks)] or len(res) != chunks:
+                    probs.setdefault("order", f"the function does not return exactly the {chunks} sub-grids it built: {names} ({tag})")
+                    continue
+                ordered = [calls[int(n[len("subgrid") :])] for n in names]
+                h = (hi[axis] - lo[axis]) / N[axis]
+                used: list = []
+                edge = lo[axis]
+                for j, (B, Sh, Per) in enumerate(ordered):
+                    try:
+                        B, Sh, Per = list(B), list(Sh), list(Per)
+                        pair = list(B[axis])
+                    except TypeError:
+                        raise AnalysisError(f"{f.ref}: from_bounds arguments are not sequences ({tag})") from None
+                    if not (len(B) == len(Sh) == len(Per) == nax and len(pair) == 2):
+                        probs.setdefault("bounds", f"sub-grid {j} does not get {nax} bounds/shape/periodic entries ({tag})")
+                        break
+                    for k in range(nax):
+                        if k == axis:
+                            continue
+                        bk = list(B[k])
+                        if not (same(bk[0], lo[k]) and same(bk[1], hi[k])):
+                            probs.setdefault("bounds", f"sub-grid {j}: bounds of the untouched axis {k} are `{tuple(bk)}`, not the parent's ({tag})")
+                        if not same(Sh[k], N[k]):
+                            probs.setdefault("shape", f"sub-grid {j}: shape of the untouched axis {k} is `{Sh[k]}`, not the parent's ({tag})")
+                        if Per[k] != per[k]:
+                            probs.setdefault("periodic", f"sub-grid {j}: periodicity of the untouched axis {k} is `{Per[k]}`, not the parent's ({tag})")
+                    sz = Sh[axis]
+                    if sz not in sizes or any(sz is u or sz == u for u in used):
+                        probs.setdefault("shape", f"sub-grid {j}: the number of cells along the split axis is `{sz}`, not one (distinct) chunk size of `_subdivide` ({tag})")
+                        break
+                    used.append(sz)
+                    if Per[axis] is not False and Per[axis] != sp.false:
+                        probs.setdefault("periodic", f"sub-grid {j}: the split axis keeps the periodicity flag `{Per[axis]}` instead of False ({tag})")
+                    if not same(pair[0], edge):
+                        probs.setdefault("bounds", f"sub-grid {j} starts at `{sp.simplify(pair[0])}` but the previous one (or the parent) ends at `{sp.simplify(edge)}`: the sub-grids do not tile the parent ({tag})")
+                    if not same(pair[1] - pair[0], sz * h):
+                        probs.setdefault("bounds", f"sub-grid {j} with `{sz}` cells spans `{sp.simplify(pair[1] - pair[0])}`, not `{sz}` cells of the parent's size `{h}`: its cells differ from the parent's ({tag})")
+                    edge = pair[1]
+                else:
+                    total = edge.subs(sizes[-1], N[axis] - sum(sizes[:-1]))
+                    if not same(total, hi[axis]):
+                        probs.setdefault("bounds", f"the last sub-grid ends at `{sp.simplify(total)}`, not at the parent's upper bound ({tag})")
+                if nax == 2 and axis == 1 and chunks == 2:
+                    samples = {"case": tag, "from_bounds_calls": [[str(x) for x in c] for c in ordered]}
+    rep.floor("subdivide_along_axis cases interpreted", n_cases, 18)
     # from_bounds(bounds, shape, periodic): positional order of every implementation
     base = ix.cls("pde/grids/base.py", "GridBase")
     n_fb = 0
@@ -308,13 +276,13 @@ def rule_bounds_chain(rep: Report, ix: Index) -> None:
             n_fb += 1
             rep.saw("functions", g.ref)
             if func_params(g)[:3] != ["bounds", "shape", "periodic"]:
-                probs.append(("signature", f"{g.ref} does not take (bounds, shape, periodic) in this order"))
+                probs.setdefault("signature", f"{g.ref} does not take (bounds, shape, periodic) in this order")
     rep.floor("from_bounds implementations", n_fb, 4)
-    rep.oblige("subdivide:bounds-chained-on-parent-lattice", not [1 for r, _ in probs if r in ("bounds", "lattice", "chain")], [m for _, m in probs])
-    rep.oblige("subdivide:shape-periodic-order", not [1 for r, _ in probs if r in ("shape", "periodic", "order", "single", "class", "signature", "partition-args")])
-    for role, msg in probs:
-        rep.violation("C17.bounds-chain", f"{f.ref}::{role}", msg, line=L.node.lineno)
-    rep.sample({"subdivide_along_axis": {"bounds": str(bv), "cursor_next": {c: str(p.env[c]) for c in cursors}}})
+    rep.oblige("subdivide:sub-grids-tile-parent-with-parent-cell-size", "bounds" not in probs, probs.get("bounds"))
+    rep.oblige("subdivide:shape-periodic-order", not [1 for r in probs if r != "bounds"], [m for r, m in probs.items() if r != "bounds"])
+    for role, msg in probs.items():
+        rep.violation("C17.bounds-chain", f"{f.ref}::{role}", msg, line=f.node.lineno)
+    rep.sample({"subdivide_along_axis": samples})
 
 
 # ============================================================================= R3
@@ -435,22 +403,55 @@ def rule_data_slices(rep: Report, ix: Index) -> None:
     rep.oblige("combine_field_data:node-i-written-at-indices[id2idx(i)]", ok, detail)
     if not ok:
         rep.violation("C17.data-slices", f"{g.ref}::store", "sub-field `i` is not stored at `(..., *indices[id2idx(i)])` for the same ghost-cell flag", line=g.node.lineno)
-    # id2idx / idx2id are inverse views of the same shape
+    rule_index_pair(rep, ix)
+
+
+def rule_index_pair(rep: Report, ix: Index) -> None:
+    """``_idx2id(_id2idx(k)) == k``: both methods are interpreted (fx) on meshes with 1-3
+    axes of symbolic shape.  ``np.unravel_index(k, shape)`` yields the row-major digits
+    ``d_j`` of k (``k = sum_j d_j prod_{m>j} n_m`` by definition); ``_idx2id`` of a
+    generic index must therefore be exactly that polynomial in the index entries."""
+    from .. import fx
+
     a = ix.func(MESH, "GridMesh._id2idx")
     b = ix.func(MESH, "GridMesh._idx2id")
-    _, pa = run(a)
-    _, pb = run(b)
-    ta, tb = pa[0].outcome[1], pb[0].outcome[1]
-    ok = (
-        head_name(ta) == "call_unravel_index"
-        and head_name(tb) == "call_ravel_multi_index"
-        and positional_args(ta)[2] == attr("shape", SELF)
-        and positional_args(tb)[2] == attr("shape", SELF)
-        and not [x for x in list(ta.args) + list(tb.args) if head_name(x).startswith("kw_")]
-    )
-    rep.oblige("id2idx/idx2id:inverse-pair-over-mesh-shape", ok, [str(ta), str(tb)])
-    if not ok:
-        rep.violation("C17.data-slices", f"{a.ref}::inverse", f"`_id2idx`/`_idx2id` are not `np.unravel_index`/`np.ravel_multi_index` over `self.shape`: {ta} / {tb}", line=a.node.lineno)
+    rep.saw("functions", a.ref)
+    rep.saw("functions", b.ref)
+    cls = ix.cls(MESH, "GridMesh")
+
+    def strip_int(e):
+        e = sp.sympify(e)
+        return e.replace(lambda x: isinstance(x, sp.Function) and x.func.__name__ in ("int", "Integer") and len(x.args) == 1, lambda x: x.args[0])
+
+    bad: list[str] = []
+    shown = {}
+    for nax in (1, 2, 3):
+        n = [sp.Symbol(f"n{k}", integer=True, positive=True) for k in range(nax)]
+        i = [sp.Symbol(f"i{k}", integer=True, nonnegative=True) for k in range(nax)]
+        k = sp.Symbol("k", integer=True, nonnegative=True)
+        mesh = fx.Model("mesh", {"shape": tuple(n), "num_axes": nax}, cls=cls)
+        it = fx.Interp(ix)
+        try:
+            lin = it.call(it.getattr(mesh, "_idx2id"), (tuple(i),), {})
+            dig = it.call(it.getattr(mesh, "_id2idx"), (k,), {})
+            lin = strip_int(it.as_expr(lin))
+            dig = [strip_int(it.as_expr(d)) for d in dig]
+        except (fx.Unsupported, TypeError) as e:
+            raise AnalysisError(f"{a.ref}/{b.ref}: cannot be interpreted on a mesh with {nax} axes: {e}") from None
+        want_digits = [fx.UNRAVEL(k, j, *n) for j in range(nax)]
+        if dig != want_digits:
+            # an explicit div/mod formulation is a legitimate rewrite this rule cannot decide
+            raise AnalysisError(f"{a.ref}: returns `{dig}` on a {nax}-axes mesh; only the row-major digits `np.unravel_index(node_id, self.shape)` are understood")
+        want = sp.Integer(0)
+        for ij, nj in zip(i, n):
+            want = want * nj + ij
+        shown[nax] = str(lin)
+        if sp.expand(lin - want) != 0:
+            bad.append(f"{nax} axes: `_idx2id(idx)` = `{lin}` but `_id2idx` enumerates nodes as `{sp.expand(want)}`")
+    rep.oblige("id2idx/idx2id:inverse-pair-over-mesh-shape", not bad, bad or shown)
+    if bad:
+        rep.violation("C17.data-slices", f"{b.ref}::inverse", "`_idx2id` is not the inverse of `_id2idx`: " + "; ".join(bad), line=b.node.lineno)
+    rep.sample({"idx2id": shown})
 
 
 # ============================================================================= R4
